@@ -398,6 +398,15 @@ def run_same_case(case):
                     st.conn.execute("UPDATE monkeytype_call_traces SET created_at = datetime(created_at, ?) WHERE rowid > ?",
                                     ("-%d days" % days[bi], before))
             st.conn.close()
+        if var.get("stale") is not None:
+            # a row of an admitted function whose ARGUMENT CLASS no longer exists (removed since it was traced), recorded
+            # `stale` days ago: it can never decode, and it must not change what the other rows produce
+            c3 = sqlite3.connect(db)
+            c3.execute("INSERT INTO monkeytype_call_traces VALUES (datetime('now', ?), 'mtp_target', ?, ?, NULL, NULL)",
+                       ("-%d days" % var["stale"], var.get("stale_func", "f1"),
+                        '{"%s": {"module": "mtp_target", "qualname": "GoneClass"}}' % var.get("stale_arg", "x")))
+            c3.commit()
+            c3.close()
         env = dict(os.environ, MTP_DB=db, PYTHONHASHSEED=str(var["seed"]),
                    PYTHONPATH=os.pathsep.join([core.REPO, w["dir"], os.path.join(core.VERIF, "fixtures")]))
         limit = ["--limit", str(var["limit"])] if var.get("limit") else []
@@ -669,6 +678,34 @@ def gen_same(tier, seed, env_text):
                  {"f": "K.c", "args": [d1], "ret": d2, "ys": []}]
         cases.append({"type": "same", "calls": calls, "k": 3, "rw": "NONE", "variants": variants(3, 4 if q else 8),
                       "family": "shared parameter name, different TypedDicts"})
+    # traces of one function that differ in ONE stored column only (yield type / return type / one argument)
+    for g in range(4 if q else 30):
+        a, b = rng.sample([absmodel.T("atom", "int"), absmodel.T("str", "s"), NONE, absmodel.T("atom", "float"), absmodel.T("list", "", [absmodel.T("atom", "int")])], 2)
+        sets = [[{"f": "g0", "args": [NONE], "ret": NONE, "ys": [a]}, {"f": "g0", "args": [NONE], "ret": NONE, "ys": [b]}],
+                [{"f": "g0", "args": [NONE], "ret": a, "ys": [NONE]}, {"f": "g0", "args": [NONE], "ret": b, "ys": [NONE]}],
+                [{"f": "f0", "args": [NONE, a], "ret": NONE, "ys": []}, {"f": "f0", "args": [NONE, b], "ret": NONE, "ys": []}]]
+        for calls in sets:
+            vs = [{"order": [0, 1], "split": [], "seed": 0}, {"order": [1, 0], "split": [], "seed": 1}, {"order": [0, 1], "split": [1], "days": [2, 0], "seed": 2},
+                  {"order": [1, 0], "split": [1], "days": [0, 3], "seed": 3}, {"order": [0, 1, 0, 1], "split": [2], "seed": 4}]
+            cases.append({"type": "same", "calls": calls, "k": 0, "rw": "NONE", "variants": vs, "family": "two traces that differ in one stored column only"})
+    # a stale row (its argument class was removed) among the decodable rows of the same function, recorded on different days
+    for g in range(3 if q else 20):
+        calls = [{"f": "f1", "args": [absmodel.T("atom", "int")], "ret": NONE, "ys": []}, {"f": "f1", "args": [absmodel.T("str", "s")], "ret": NONE, "ys": []},
+                 {"f": "K.m", "args": [absmodel.T("atom", "float")], "ret": NONE, "ys": []}]
+        vs = [{"order": [0, 1, 2], "split": [1, 2], "days": [3, 2, 1], "seed": 0}]
+        for st in (0, 1, 2, 3, 5):
+            vs.append({"order": [0, 1, 2], "split": [1, 2], "days": [4, 2, 0], "stale": st, "seed": st})
+        vs.append({"order": [2, 1, 0], "split": [1], "days": [0, 4], "stale": 2, "seed": 7})
+        cases.append({"type": "same", "calls": calls, "k": 0, "rw": "NONE", "variants": vs, "family": "a stale row among the decodable rows of one function"})
+    # two functions whose generated TypedDict classes need different imports (List, a class of another module) in their fields
+    AT = absmodel.T
+    dl = AT("dict", "", [AT("pair", "", [AT("str", "items"), AT("list", "", [AT("atom", "int")])])])
+    dc = AT("dict", "", [AT("pair", "", [AT("str", "owner"), AT("atom", "mtfx.shapes.A")])])
+    dt = AT("dict", "", [AT("pair", "", [AT("str", "pair"), AT("tuple", "", [AT("atom", "int"), AT("str", "s")])])])
+    for g in range(3 if q else 20):
+        calls = [{"f": "f1", "args": [dl], "ret": NONE, "ys": []}, {"f": "K.m", "args": [dc], "ret": NONE, "ys": []}, {"f": "K.s", "args": [dt], "ret": NONE, "ys": []}]
+        cases.append({"type": "same", "calls": calls, "k": 3, "rw": "NONE", "variants": variants(3, 6 if q else 8),
+                      "family": "functions whose generated TypedDict classes need different imports"})
     # ONE function called with records of different shapes (traces that differ only inside their TypedDicts)
     d3 = absmodel.T("dict", "", [absmodel.T("pair", "", [absmodel.T("str", "a"), absmodel.T("atom", "int")]),
                                   absmodel.T("pair", "", [absmodel.T("str", "c"), absmodel.T("list", "", [absmodel.T("atom", "int")])])])
